@@ -89,16 +89,25 @@ IdxRun(is) == Child([k \in 1..Len(is) |-> SIndex(is[k])])
 C11RunQ == << <<IdxRun(<<3, 2, 1, 0>>)>>, <<IdxRun(<<5, 4, 3, 2, 1, 0>>)>>, <<IdxRun(<<0, 3, 2, 1, 0, 0>>)>>, <<IdxRun(<<0, 1, 2, 3>>)>>, <<IdxRun(<<4, 3, 2, 1>>)>>,
              <<IdxRun(<<2, 1, 0, -1>>)>>, <<IdxRun(<<-1, -2, -3, -4>>)>>, <<IdxRun(<<1, 2, 3, 4, 5, 6, 7, 8>>)>>, <<IdxRun(<<0, 0, 0, 0>>)>>,
              <<Child(<<SIndex(2), SIndex(1), SIndex(0), SSlice(ABSENT, ABSENT, -1)>>)>> >>        \* (one input node each: several would re-find D1)
+C11WsB == <<ABSENT, 0, 1, 2, 3, 4, 5, -1>>
+C11WsS == <<ABSENT, 1, 2, -1, -2>>
+C11WildSliceQ == FlattenSeq([a \in 1..Len(C11WsB) |-> FlattenSeq([b \in 1..Len(C11WsB) |-> [c \in 1..Len(C11WsS) |->
+                    <<Child(<<SWild>>), Child(<<SSlice(C11WsB[a], C11WsB[b], C11WsS[c])>>)>>]])])                  \* $[*][a:b:c] over rows of every length, shorter rows first
+                 \o << <<Desc(<<SSlice(3, 1, -1)>>)>>, <<Desc(<<SSlice(2, 0, -1)>>)>>, <<Desc(<<SSlice(4, ABSENT, -2)>>)>> >>
+C11TouchQ == << <<Child(<<SSlice(3, 1, ABSENT), SSlice(1, 5, ABSENT)>>)>>, <<Child(<<SSlice(1, 0, ABSENT), SSlice(0, 1, ABSENT)>>)>>, <<Child(<<SSlice(0, 2, ABSENT), SSlice(2, 4, ABSENT)>>)>>,
+               <<Child(<<SSlice(2, 2, ABSENT), SSlice(2, 3, 1)>>)>>, <<Child(<<SSlice(0, 1, ABSENT), SSlice(1, 2, ABSENT), SSlice(2, 0, ABSENT), SSlice(0, 3, ABSENT)>>)>>,
+               Flt1(LCmp("==", EFn("count", <<ERel(<<Child(<<SSlice(2, 0, ABSENT), SSlice(0, 3, ABSENT)>>)>>)>>), ELit(JInt(3)))) >>
 C11Queries == [i \in 1..Len(C11Sels) |-> <<Child(<<C11Sels[i]>>)>>]
               \o [i \in 1..Len(C11Sels) |-> <<Desc(<<C11Sels[i]>>)>>]       \* the same under ..
               \o [i \in 1..Len(C11Idx) |-> <<Child(<<SWild>>), Child(<<C11Idx[i]>>)>>]
-              \o C11RunQ                                                    \* (on every document)
+              \o C11RunQ \o C11TouchQ                                       \* (on every document)
+              \o C11WildSliceQ
               \o C11CountQ                                                  \* (always the LAST queries; on C11CountDoc only)
 C11Stride == IF Thorough THEN 1 ELSE 3
 
 (* ---------- C03: Normalized Paths ------------------------------------------ *)
 C03Alpha == <<97, 32, 39, 34, 92, 47, 1, 10, 233, 128512>>       \* a SP ' " \ / U+0001 LF e-acute U+1F600
-C03Names == DedupSeq(TuplesOf(C03Alpha, 1) \o TuplesOf(C03Alpha, 2)
+C03Names == DedupSeq(TuplesOf(C03Alpha, 1) \o TuplesOf(C03Alpha, 2) \o << <<97, 47, 98>>, <<97, 92, 47, 98>> >>
             \o << <<39, 120, 39>>, <<34, 120, 34>>, <<48>>, <<>>, <<8>>, <<12>>, <<13>>, <<9>>, <<11>>, <<31>>, <<127>>,
                   <<97, 39, 98>>, <<92, 110>>, <<92, 92>>, <<36>>, <<91, 48, 93>>,
                   <<38>>, <<97, 38, 98>>, <<91, 42, 93>>, <<97, 91, 63, 98, 93>>, <<35>>, <<37>>, <<33>>, <<133>>, <<97, 133, 98>>, <<128>>, <<159>>, <<160>>, <<8232>>, <<65535>>, <<1114111>>, <<55295>>, <<57344>>, <<93, 46, 91>> >>)   \* C1 controls, NBSP, LS, range ends
@@ -111,6 +120,8 @@ C03Docs == FlattenSeq([i \in 1..Len(C03Names) |->
            \o <<JArr(<<JArr(<<JInt(1), JInt(2), JInt(3)>>), JArr(<<>>), JInt(5)>>), JInt(1), JObj(<<>>, <<>>),
                 JObj(<<<<233>>>>, <<JObj(<<cA, cB>>, <<JArr(<<JInt(1)>>), JArr(<<JInt(2), JInt(3)>>)>>)>>),                 \* {"e-acute":{"a":[1],"b":[2,3]}}
                 JObj(<<<<128512, 233>>, <<128512, 233, 97>>>>, <<JObj(<<cA>>, <<JArr(<<JInt(1)>>)>>), JArr(<<JArr(<<JInt(2)>>), JObj(<<<<233>>>>, <<JInt(3)>>)>>)>>),
+                JObj(<<<<47>>, <<92, 47>>, <<97, 47, 98>>, <<97, 92, 47, 98>>>>, <<JInt(1), JInt(2), JArr(<<JInt(3)>>), JArr(<<JInt(4)>>)>>),          \* {"/":1, "\\/":2, "a/b":[3], "a\\/b":[4]}
+                JArr(<<JArr(<<>>), JArr(<<>>), JInt(1), Obj1(cA, JInt(1)), Obj1(cA, JInt(1)), Obj1(cA, JInt(1)), JInt(1), JArr(<<JInt(1)>>), JArr(<<JInt(1)>>), JObj(<<>>, <<>>), JObj(<<>>, <<>>), JInt(1)>>),
                 JArr(<<JInt(0), JInt(1), JInt(2), JInt(3), JInt(4)>>), JArr([i \in 1..103 |-> JInt(i - 1)])>>
 C03NameRoutes == [i \in 1..Len(C03Names) |-> <<N1(C03Names[i])>>]
                  \o [i \in 1..Len(C03Names) |-> <<Desc(<<SName(C03Names[i])>>)>>]
@@ -130,7 +141,7 @@ C03BigRoutes == {q \in 1..Len(C03Routes) : C03Routes[q] \in {<<Desc(<<SIndex(100
 C03Pick(d, q) == \/ q <= Len(C03Routes) /\ (d = C03BigDoc => q \in C03BigRoutes)
                  \/ LET ni == ((q - Len(C03Routes) - 1) % Len(C03Names)) + 1
                     IN d <= 3 * Len(C03Names) /\ ((d - 1) \div 3) + 1 = ni
-                 \/ d > 3 * Len(C03Names) /\ d # C03BigDoc /\ q > Len(C03Routes) /\ C03Names[((q - Len(C03Routes) - 1) % Len(C03Names)) + 1] \in {<<233>>, <<97>>}
+                 \/ d > 3 * Len(C03Names) /\ d # C03BigDoc /\ q > Len(C03Routes) /\ C03Names[((q - Len(C03Routes) - 1) % Len(C03Names)) + 1] \in {<<233>>, <<97>>, <<47>>, <<92, 47>>, <<97, 47, 98>>, <<97, 92, 47, 98>>}
 
 (* ---------- C04: comparisons ------------------------------------------------ *)
 C04Prims == <<JNull, JBool(TRUE), JBool(FALSE), JInt(0), F(0, 0), JInt(1), F(1, 0), JInt(-1), F(15, -1),
@@ -166,11 +177,20 @@ LongNum(i) == JNumX(LongM(i), LongXs(i), LongE(i), TRUE)
 C04LongDoc == JArr([i \in 1..C04LongN |-> Obj1(cX, LongNum(i))])
 C04LongQ == FlattenSeq([i \in 1..C04LongN |-> << Flt1(LCmp("==", RelN(cX), ELit(LongNum(i)))), Flt1(LCmp("<", ELit(LongNum(i)), RelN(cX))) >>])
 \* an index step inside a comparison operand applies to arrays only (never to a member named "0" or "1")
-C04IdxDoc == JArr(<<Obj1(<<48>>, JStr(cX)), JArr(<<JStr(cX)>>), JObj(<<<<49>>, cA>>, <<JInt(5), JInt(5)>>), JArr(<<JInt(1), JInt(5)>>), JStr(cX), JObj(<<<<45, 49>>>>, <<JStr(cX)>>)>>)
+C04IdxDoc == JArr(<<Obj1(<<48>>, JStr(cX)), JArr(<<JStr(cX)>>), JObj(<<<<49>>, cA>>, <<JInt(5), JInt(5)>>), JArr(<<JInt(1), JInt(5)>>), JStr(cX), JObj(<<<<45, 49>>>>, <<JStr(cX)>>),
+                   JObj(<<nQk, cK>>, <<JInt(2), JInt(1)>>), JObj(<<nQk, cK>>, <<JInt(2), JInt(2)>>), JObj(<<cA, cK>>, <<JInt(2), JInt(1)>>), JObj(<<nDQk, cK>>, <<JInt(2), JInt(1)>>)>>)      \* members k and 'k' (two nodes, two values)
 C04IdxQ == << Flt1(LCmp("==", ERel(<<I1(0)>>), ELit(JStr(cX)))), Flt1(LCmp("==", ERel(<<I1(1)>>), ELit(JInt(5)))), Flt1(LCmp("!=", ERel(<<I1(0)>>), ELit(JStr(cX)))),
               Flt1(LCmp("==", ERel(<<I1(-1)>>), ELit(JStr(cX)))), Flt1(LCmp("==", ERel(<<>>), EAbs(<<I1(1), I1(0)>>))), Flt1(LCmp("==", EAbs(<<I1(0), I1(0)>>), ERel(<<I1(0)>>))),
-              Flt1(LCmp("<=", ERel(<<I1(1)>>), EAbs(<<I1(2), I1(1)>>))), Flt1(LCmp("==", ERel(<<N1(<<48>>)>>), ERel(<<I1(0)>>))) >>
-C04Docs == C04ChunkDocs \o <<C04Single, C04LongDoc, C04IdxDoc>>
+              Flt1(LCmp("<=", ERel(<<I1(1)>>), EAbs(<<I1(2), I1(1)>>))), Flt1(LCmp("==", ERel(<<N1(<<48>>)>>), ERel(<<I1(0)>>))),
+              \* two DIFFERENT nodes are compared by value, whatever their names look like: value(@[?@ == 2]) == @.k
+              Flt1(LCmp("==", EFn("value", <<ERel(<<Child(<<SFilter(LCmp("==", ERel(<<>>), ELit(JInt(2))))>>)>>)>>), RelN(cK))),
+              Flt1(LCmp("!=", EFn("value", <<ERel(<<Child(<<SFilter(LCmp("==", ERel(<<>>), ELit(JInt(2))))>>)>>)>>), RelN(cK))),
+              Flt1(LCmp("<=", RelN(cK), EFn("value", <<ERel(<<Child(<<SFilter(LCmp("==", ERel(<<>>), ELit(JInt(2))))>>)>>)>>))) >>
+LongArr(n, fl, odd) == JArr([i \in 1..n |-> IF i = odd THEN JInt(0 - 1) ELSE IF i > fl THEN F(i, 0) ELSE JInt(i)])
+C04ArrDoc == JArr(<<LongArr(65, 99, 0), LongArr(65, 63, 0), LongArr(65, 64, 65), LongArr(65, 0, 0), LongArr(130, 999, 0), LongArr(130, 127, 0), LongArr(130, 100, 129), LongArr(64, 60, 0), LongArr(64, 99, 0)>>)
+C04ArrQ == << Flt1(LCmp("==", ERel(<<>>), EAbs(<<I1(0)>>))), Flt1(LCmp("==", ERel(<<>>), EAbs(<<I1(4)>>))), Flt1(LCmp("!=", ERel(<<>>), EAbs(<<I1(1)>>))), Flt1(LCmp("==", EAbs(<<I1(8)>>), ERel(<<>>))),
+              Flt1(LCmp("<=", ERel(<<>>), EAbs(<<I1(5)>>))) >>
+C04Docs == C04ChunkDocs \o <<C04Single, C04LongDoc, C04IdxDoc, C04ArrDoc>>
 C04PairQ == [o \in 1..6 |-> Flt1(LCmp(CmpOps[o], RelN(cX), RelN(cY)))]
             \o [o \in 1..6 |-> Flt1(LCmp(CmpOps[o], EFn("value", <<RelN(cX)>>), RelN(cY)))]
             \o [o \in 1..6 |-> Flt1(LCmp(CmpOps[o], RelN(cX), AbsIdxN(0, cY)))]        \* $-rooted operand
@@ -181,11 +201,12 @@ C04LitQ == FlattenSeq([l \in 1..Len(C04Lits) |-> FlattenSeq([o \in 1..6 |->
                                            Flt1(LCmp(CmpOps[o], EFn("count", <<ERel(<<N1(cX), Child(<<SWild>>)>>)>>), ELit(F(1, 0)))),
                                            Flt1(LCmp(CmpOps[o], ELit(JInt(1)), ELit(F(1, 0)))),
                                            Flt1(LCmp(CmpOps[o], ELit(JStr(cA)), ELit(JStr(cB)))) >>])
-C04Queries == C04PairQ \o C04LitQ \o C04LongQ \o C04IdxQ
+C04Queries == C04PairQ \o C04LitQ \o C04LongQ \o C04IdxQ \o C04ArrQ
 \* pair queries on pair chunks, literal queries on the single-operand document, long-mantissa queries on theirs
 C04Pick(d, q) == IF q <= Len(C04PairQ) THEN d <= Len(C04ChunkDocs)
                  ELSE IF q <= Len(C04PairQ) + Len(C04LitQ) THEN d = Len(C04ChunkDocs) + 1
-                 ELSE IF q <= Len(C04PairQ) + Len(C04LitQ) + Len(C04LongQ) THEN d = Len(C04ChunkDocs) + 2 ELSE d = Len(C04ChunkDocs) + 3
+                 ELSE IF q <= Len(C04PairQ) + Len(C04LitQ) + Len(C04LongQ) THEN d = Len(C04ChunkDocs) + 2
+                 ELSE IF q <= Len(C04PairQ) + Len(C04LitQ) + Len(C04LongQ) + Len(C04IdxQ) THEN d = Len(C04ChunkDocs) + 3 ELSE d = Len(C04ChunkDocs) + 4
 ASSUME \A i, k \in 1..C04LongN : i # k => LongM(i) # LongM(k)
 
 (* ---------- C05: filter logic, existence, scoping ---------------------------- *)
@@ -246,6 +267,13 @@ TUA == LTest(FALSE, ERel(<<Child(<<SName(cX), SName(cA)>>), N1(cB)>>))         \
 TDA == LTest(FALSE, ERel(<<Desc(<<SWild>>), N1(cA)>>))                        \* @..*.a
 NWA == LTest(TRUE, ERel(<<Child(<<SWild>>), N1(cA)>>))                        \* !@.*.a
 TW2 == LTest(FALSE, ERel(<<Child(<<SWild>>), Child(<<SWild>>), N1(cB)>>))      \* @.*.*.b
+NMt == LTest(TRUE, EFn("match", <<RelN(cA), ELit(JStr(<<49>>))>>))             \* !match(@.a, '1')
+NSr == LTest(TRUE, EFn("search", <<RelN(cA), ELit(JStr(<<>>))>>))              \* !search(@.a, '')
+TAbsK == LTest(FALSE, EAbs(<<N1(cK)>>))                                       \* $.k          (absolute query as a test)
+NAbsX == LTest(TRUE, EAbs(<<N1(cX)>>))                                        \* !$.x
+TAbsL0 == LTest(FALSE, EAbs(<<N1(cL), I1(0)>>))                               \* $.l[0]
+CAbs == LCmp(">", EFn("count", <<EAbs(<<N1(cL), Child(<<SWild>>)>>)>>), ELit(JInt(1)))      \* count($.l.*) > 1   (absolute query as an argument)
+C05FnAbs == <<NMt, NSr, LAnd(<<TA, NMt>>), LOr(<<NSr, TB>>), TAbsK, NAbsX, TAbsL0, CAbs, LAnd(<<TAbsK, TA>>), LOr(<<NAbsX, TB>>), LAnd(<<CAbs, NA>>)>>
 C05Branchy == <<TWA, TWB, TUA, TDA, NWA, TW2, LAnd(<<TWA, TWB>>), LOr(<<NWA, TUA>>)>>
 C05LookAlike == << LOr(<<TAB, TAdB>>), LOr(<<TAdB, TAB>>), LAnd(<<TAB, TAdB>>), LOr(<<TA1, TAi1>>), LOr(<<TAi1, TA1>>), LAnd(<<TAi1, TA1>>),
                    LOr(<<TS10, TS1>>), LAnd(<<TS1, TS10>>), LOr(<<TAB, TAB, TAdB>>), LAnd(<<LParen(TRUE, TAB), TAdB>>), LOr(<<TA, TA>>), LAnd(<<TA, TA, TB>>) >>
@@ -268,8 +296,10 @@ C05GroupOps == FlattenSeq(Cross2(C05Group, <<TA, NA>>, LAMBDA grp, z :
 C05NegOr == Cross2(C05A, C05A, LAMBDA x, y : LParen(TRUE, LOr(<<x, y>>)))                                                  \* !(a || b)
 C05DblNeg == [i \in 1..Len(C05A) |-> LParen(TRUE, LParen(TRUE, C05A[i]))]                                                   \* !(!(a))
 C05Deep == Cross2(C05Core, C05Core, LAMBDA x, y : LParen(TRUE, LOr(<<LParen(TRUE, LAnd(<<x, y>>)), LParen(FALSE, LParen(TRUE, y))>>)))
-C05Lx == C05A \o C05LookAlike \o C05Branchy \o C05GroupOps \o C05And2 \o C05Or2 \o C05And3 \o C05OrAnd \o C05AndOr \o C05ParOr \o C05NegPar \o C05NegOr \o C05DblNeg \o C05Deep
+C05Lx == C05A \o C05LookAlike \o C05Branchy \o C05FnAbs \o C05GroupOps \o C05And2 \o C05Or2 \o C05And3 \o C05OrAnd \o C05AndOr \o C05ParOr \o C05NegPar \o C05NegOr \o C05DblNeg \o C05Deep
 \* a filter selector that receives the SAME node several times keeps its children each time (a nodelist is not a set)
+C05MultiQ == << <<N1(cL), Child(<<SFilter(TA), SFilter(TB)>>)>>, <<N1(cL), Child(<<SFilter(TB), SFilter(TA), SFilter(TB)>>)>>, <<N1(cL), Child(<<SFilter(NA), SIndex(0), SFilter(TC)>>)>>,
+                Flt1(LCmp("==", EFn("count", <<ERel(<<Child(<<SFilter(LTest(FALSE, ERel(<<>>))), SFilter(LTest(FALSE, ERel(<<>>)))>>)>>)>>), ELit(JInt(2)))) >>
 C05DupQ == << <<Child(<<SName(cL), SName(cL)>>), Child(<<SFilter(TA)>>)>>, <<Child(<<SName(cL), SName(cK), SName(cL)>>), Child(<<SFilter(NA)>>)>>,
               <<Child(<<SIndex(0), SIndex(0)>>), Child(<<SFilter(TB)>>)>>, <<Child(<<SIndex(1), SIndex(-5)>>), Child(<<SFilter(LCmp(">", ERel(<<>>), ELit(JInt(0))))>>)>>,
               <<Child(<<SWild, SIndex(1)>>), Child(<<SFilter(LTest(FALSE, ERel(<<>>)))>>)>>, <<Child(<<SWild, SWild>>), Child(<<SFilter(TA)>>)>>,
@@ -278,7 +308,7 @@ C05DeepQ == << <<Child(<<SFilter(NestF(34))>>)>>, <<Child(<<SFilter(NestF(40))>>
 C05Queries == C05DeepQ \o [i \in 1..Len(C05Lx) |-> <<N1(cL), Child(<<SFilter(C05Lx[i])>>)>>]        \* $.l[?lx]
               \o [i \in 1..Len(C05A) |-> <<Desc(<<SFilter(C05A[i])>>)>>]                \* $..[?atom]
               \o [i \in 1..Len(C05A) |-> <<Child(<<SFilter(C05A[i])>>)>>]               \* $[?atom]
-              \o C05DupQ
+              \o C05DupQ \o C05MultiQ
               \o [i \in 1..Len(C05ChainLx) |-> <<N1(cL), Child(<<SFilter(C05ChainLx[i])>>)>>]   \* $.l[?c == 1 || c == 2 || ...]   (always the LAST queries)
 C05Stride == IF Thorough THEN 1 ELSE 2
 
@@ -320,6 +350,7 @@ C10FnExprs == <<EFn("length", <<RelN(cX)>>), EFn("count", <<XW>>), EFn("count", 
                 EFn("value", <<ERel(<<Child(<<SFilter(LCmp(">", ERel(<<>>), ELit(JInt(1))))>>)>>)>>),             \* value(@[?@ > 1])  filter applied directly to @
                 EFn("value", <<ERel(<<Child(<<SSlice(1, ABSENT, ABSENT)>>)>>)>>),                                 \* value(@[1:])
                 EFn("count", <<ERel(<<Child(<<SSlice(5, ABSENT, ABSENT)>>)>>)>>),
+                EFn("length", <<ERel(<<N1(cX), I1(-1)>>)>>), EFn("value", <<ERel(<<N1(cX), I1(-1)>>)>>), EFn("length", <<EFn("value", <<ERel(<<N1(cX), I1(-2)>>)>>)>>),     \* length(@.x[-1]) ...
                 EFn("count", <<ERel(<<N1(cX), Child(<<SIndex(0), SIndex(0)>>)>>)>>),                                \* count(@.x[0,0])   a node selected twice counts twice
                 EFn("count", <<ERel(<<N1(cX), Child(<<SWild, SWild>>)>>)>>),                                        \* count(@.x[*,*])
                 EFn("count", <<ERel(<<N1(cX), Child(<<SSlice(0, 2, ABSENT), SSlice(1, 3, ABSENT), SIndex(-1)>>)>>)>>), \* count(@.x[0:2,1:3,-1])
@@ -355,7 +386,10 @@ C10BigN == IF Thorough THEN 1250 ELSE 150
 C10BigDoc == JArr(<<JObj(<<cP, cS>>, <<JStr(RenderRe(RRep(RAny, C10BigN, C10BigN))), JStr(RepN(97, C10BigN))>>),
                     JObj(<<cP, cS>>, <<JStr(RenderRe(RRep(RAny, C10BigN, C10BigN))), JStr(RepN(97, C10BigN - 1))>>)>>)
 C10PatDoc == JArr(Cross2(C10PatDocSubj, C10PatDocPats, LAMBDA sj, pt : JObj(<<cP, cS>>, <<JStr(pt), JStr(sj)>>)))
-C10PatQ == << Flt1(LTest(FALSE, EFn("match", <<RelN(cS), RelN(cP)>>))), Flt1(LTest(FALSE, EFn("search", <<RelN(cS), RelN(cP)>>))) >>
+C10LitSubj == << <<97, 46, 98>>, <<92, 120>>, <<92>>, <<46>>, <<97, 92, 98>>, <<93>> >>
+C10LitSubjQ == FlattenSeq([i \in 1..Len(C10LitSubj) |->
+                 << Flt1(LTest(FALSE, EFn("match", <<ELit(JStr(C10LitSubj[i])), RelN(cP)>>))), Flt1(LTest(FALSE, EFn("search", <<ELit(JStr(C10LitSubj[i])), RelN(cP)>>))) >>])     \* search('a.b', @.p)
+C10PatQ == C10LitSubjQ \o << Flt1(LTest(FALSE, EFn("match", <<RelN(cS), RelN(cP)>>))), Flt1(LTest(FALSE, EFn("search", <<RelN(cS), RelN(cP)>>))) >>
 C10Docs == <<C10SubjDoc, C10FnDoc, C10PatDoc, C10RepDoc, C10BigDoc>>
 \* literal patterns whose SPELLING contains backslashes, on the documents whose patterns come from the document: the same
 \* text once as a literal (one backslash meant) and once as a document value (two backslashes meant), in one process
@@ -393,6 +427,8 @@ C14Queries == FlattenSeq([f \in 1..5 |->
                    Flt1(LTest(FALSE, EFn(C14Fns[f], <<RelN(cX), AbsIdxN(0, cL)>>))),
                    Flt1(LAnd(<<LTest(FALSE, EFn(C14Fns[f], <<RelN(cX), RelN(cL)>>)), LTest(FALSE, RelN(cX))>>)),
                    \* arguments given as NON-singular queries that select at most one node ('zz' is nowhere): the argument is that node
+                   Flt1(LTest(FALSE, EFn(C14Fns[f], <<RelN(cX), AbsIdxN(-1, cL)>>))), Flt1(LTest(FALSE, EFn(C14Fns[f], <<RelN(cX), EAbs(<<I1(-2), N1(cL)>>)>>))),    \* fn(@.x, $[-1].l)   negative index in an absolute argument
+                   Flt1(LTest(FALSE, EFn(C14Fns[f], <<RelN(cL), RelN(cL)>>))), Flt1(LTest(FALSE, EFn(C14Fns[f], <<RelN(cX), RelN(cX)>>))),                        \* fn(@.l, @.l)   both arguments the same node (also the empty array)
                    Flt1(LTest(FALSE, EFn(C14Fns[f], <<EFn("value", <<RelN(cX)>>), AbsIdxN(0, cL)>>))),                                 \* fn(value(@.x), $[0].l)   the only @ is inside the inner call
                    Flt1(LTest(FALSE, EFn(C14Fns[f], <<EFn("length", <<RelN(cX)>>), AbsIdxN(1, cL)>>))),                                \* fn(length(@.x), $[1].l)
                    Flt1(LTest(TRUE, EFn(C14Fns[f], <<EFn("count", <<ERel(<<N1(cX), Child(<<SWild>>)>>)>>), AbsIdxN(2, cL)>>))),         \* !fn(count(@.x.*), $[2].l)
@@ -436,8 +472,11 @@ RECURSIVE NestOver(_, _, _)
 NestOver(kind, n, leaf) == IF n = 0 THEN leaf
                            ELSE IF kind = "obj" \/ (kind = "mix" /\ n % 2 = 0) THEN JObj(<<cA>>, <<NestOver(kind, n - 1, leaf)>>)
                            ELSE JArr(<<NestOver(kind, n - 1, leaf)>>)
-C01DDocs == <<NestDoc("arr", C01DDepth), NestDoc("obj", C01DDepth), NestDoc("mix", C01DDepth), NestOver("mix", C01DDepth, Bushy), NestOver("obj", 126, Bushy)>>
-C01DQueries == << <<Desc(<<SWild>>)>>, <<Desc(<<SIndex(-1), SName(cA)>>)>>, <<Desc(<<SFilter(LTest(FALSE, ERel(<<>>)))>>)>>, <<Desc(<<SName(cV)>>)>> >>
+C01DDocs == <<NestDoc("arr", C01DDepth), NestDoc("obj", C01DDepth), NestDoc("mix", C01DDepth), NestOver("mix", C01DDepth, Bushy), NestOver("obj", 126, Bushy),
+              NestOver("obj", 9, Bushy), NestOver("mix", 12, Bushy)>>          \* (the last two: chained descendant segments only - their results grow with the square of the depth)
+C01DChained == 3
+C01DQueries == << <<Desc(<<SWild>>)>>, <<Desc(<<SIndex(-1), SName(cA)>>)>>, <<Desc(<<SFilter(LTest(FALSE, ERel(<<>>)))>>)>>, <<Desc(<<SName(cV)>>)>>,
+                 <<Desc(<<SName(cA)>>), Desc(<<SName(cA)>>)>>, <<Desc(<<SIndex(0)>>), Desc(<<SWild>>)>>, <<Desc(<<SName(cA)>>), Desc(<<SName(cV)>>)>> >>        \* $..a..a : a node is reported once per way of reaching it
                 \o (IF Thorough THEN << <<Desc(<<SIndex(0)>>)>>, <<Desc(<<SName(cA)>>)>>, <<Desc(<<SSlice(ABSENT, ABSENT, -1)>>)>> >> ELSE <<>>)
 
 (* ---------- C09D: very deep documents whose Normalized Paths have hundreds of steps (run with Evaluator_light.cfg) ---- *)
@@ -456,7 +495,8 @@ Pick(d, q) == CASE Univ = "C03" -> C03Pick(d, q)
                 [] Univ = "C10" -> C10Pick(d, q)
                 [] Univ = "C14" -> IF q > Len(C14Queries) - Len(C14LitQ) THEN d = Len(C14Docs) ELSE d < Len(C14Docs)
                 [] Univ = "C05" -> IF q <= Len(C05DeepQ) THEN d = 4 ELSE IF q > Len(C05Queries) - Len(C05ChainLx) THEN d = 5 ELSE d <= 3 /\ Stride(StrideN, d, q)
-                [] Univ = "C11" -> IF q > Len(C11Queries) - Len(C11CountQ) THEN d = Len(C11Docs)
-                                   ELSE IF q > Len(C11Queries) - Len(C11CountQ) - Len(C11RunQ) THEN TRUE ELSE d < Len(C11Docs) /\ Stride(StrideN, d, q)
+                [] Univ = "C01D" -> IF q \in 5..(4 + C01DChained) THEN d > Len(C01DDocs) - 2 ELSE d <= Len(C01DDocs) - 2
+                [] Univ = "C11" -> IF q > Len(C11Queries) - Len(C11CountQ) - Len(C11WildSliceQ) THEN d = Len(C11Docs)
+                                   ELSE IF q > Len(C11Queries) - Len(C11CountQ) - Len(C11WildSliceQ) - Len(C11RunQ) - Len(C11TouchQ) THEN TRUE ELSE d < Len(C11Docs) /\ Stride(StrideN, d, q)
                 [] OTHER -> Stride(StrideN, d, q)
 =============================================================================
